@@ -36,15 +36,17 @@ type openFile struct {
 }
 
 type fsModel struct {
-	in      *Interp
-	names   map[string]*inode
-	files   map[*Loc]*openFile
-	nextIno int
-	step    int
-	crashAt int // <0: never
-	faults  bool
-	log     []string
-	tmpSeq  int
+	in       *Interp
+	names    map[string]*inode
+	files    map[*Loc]*openFile
+	nextIno  int
+	step     int
+	crashAt  int // <0: never
+	faults   bool
+	log      []string
+	tmpSeq   int
+	plan     []FSOp
+	planOpen bool
 }
 
 type fsCrash struct{}
@@ -58,9 +60,45 @@ func (fs *fsModel) newInode() *inode {
 	return &inode{id: fs.nextIno, nlink: 1, mode: 0o644}
 }
 
+// FSOp is one OS call of the code under test inside a fault / crash bracket,
+// in execution order: the plan a native replay has to line up with the
+// system calls of the real process.
+type FSOp struct {
+	Kind     string `json:"kind"` // open read write pwrite close truncate fstat stat rename unlink fchmod chmod
+	Mutating bool   `json:"mutating,omitempty"`
+	Fault    bool   `json:"fault,omitempty"` // this call is made to fail
+	Crash    bool   `json:"crash,omitempty"` // the process is killed just before this call
+}
+
+func opKind(what string) string {
+	k := what
+	if i := strings.IndexByte(what, ' '); i >= 0 {
+		k = what[:i]
+	}
+	switch k {
+	case "ftruncate":
+		return "truncate"
+	case "create", "truncate-on-open":
+		return "open"
+	}
+	return k
+}
+
 // mutate is called before every state-changing OS call.
 func (fs *fsModel) mutate(what string) {
-	if fs.crashAt >= 0 && fs.step == fs.crashAt {
+	kind := opKind(what)
+	bracket := fs.faults || fs.crashAt >= 0
+	crashing := fs.crashAt >= 0 && fs.step == fs.crashAt
+	if bracket {
+		if n := len(fs.plan); n > 0 && !fs.plan[n-1].Mutating && fs.plan[n-1].Kind == kind && fs.planOpen {
+			fs.plan[n-1].Mutating = true
+			fs.plan[n-1].Crash = crashing
+		} else {
+			fs.plan = append(fs.plan, FSOp{Kind: kind, Mutating: true, Crash: crashing})
+		}
+		fs.planOpen = false
+	}
+	if crashing {
 		fs.log = append(fs.log, fmt.Sprintf("CRASH before step %d (%s)", fs.step, what))
 		panic(fsCrash{})
 	}
@@ -74,9 +112,13 @@ func (fs *fsModel) fault(op string) bool {
 	if !fs.faults {
 		return false
 	}
-	b := fs.in.drawInput("fsfault."+op, "bool", 0)
+	b := fs.in.fresh("fsfault."+op, 0)
+	fs.in.inputs = append(fs.in.inputs, Input{Tag: "fsfault." + op, Kind: "bool", Term: b, Internal: true})
 	fs.in.res.NoNative = true
-	return fs.in.Branch(b)
+	r := fs.in.Branch(b)
+	fs.plan = append(fs.plan, FSOp{Kind: opKind(op), Fault: r})
+	fs.planOpen = true // a following mutate() of the same kind belongs to this call
+	return r
 }
 
 func (in *Interp) structField(l *Loc, name string) *Loc {
@@ -283,6 +325,9 @@ func registerOS(e *Engine) {
 		return TupleV{in.intTerm(n), nilError()}
 	}
 	writeAt := func(in *Interp, of *openFile, b SliceV, off int) {
+		if off > len(of.ino.data)+(1<<16) {
+			panic(unwindFail{fmt.Sprintf("write at offset %d far beyond the end of a %d-byte file (engine limit)", off, len(of.ino.data))})
+		}
 		for len(of.ino.data) < off {
 			of.ino.data = append(of.ino.data, in.ctx.BV(0, 8))
 		}
@@ -391,10 +436,20 @@ func registerOS(e *Engine) {
 		n := in.Concretize(sz, len(of.ino.data)+in.maxLen, "truncate size")
 		in.fs.mutate(fmt.Sprintf("ftruncate %s %d", of.name, n))
 		d := append([]*smt.Term(nil), of.ino.data...)
-		for len(d) < n {
+		// a sparse extension far beyond the current size is materialised only
+		// up to 64 extra zero bytes (enough for any comparison to see it)
+		limit := n
+		if limit > len(d)+64 {
+			limit = len(d) + 64
+			in.res.addCut(fmt.Sprintf("ftruncate to %d bytes: sparse tail materialised up to %d bytes", n, limit))
+		}
+		for len(d) < limit {
 			d = append(d, c.BV(0, 8))
 		}
-		of.ino.data = d[:n]
+		if n < len(d) {
+			d = d[:n]
+		}
+		of.ino.data = d
 		return nilError()
 	}
 	I["(*os.File).Stat"] = func(in *Interp, fn *ssa.Function, a []Value) Value {
